@@ -140,6 +140,20 @@ def subDiv (f : Num → Num → Except Err Num) (unit : Num) (args : List Value)
       let init ← f first second
       foldNum f init more
 
+/-- the exact numbers at the front of an argument list (up to the first argument that is a real or not a number) -/
+def exactPrefix : List Value → List Num
+  | .num x :: rest => if x.notReal then x :: exactPrefix rest else []
+  | _ => []
+
+/-- `div`: `subDiv Num.div 1`, except that while every operand so far is exact an exact zero divisor is an error even
+when the running quotient has overflowed into a real (`exact_so_far` in base.rs) -/
+def divArgs (args : List Value) : Except Err Num :=
+  let p := exactPrefix args
+  let divisors := match args with
+    | [_] => p
+    | _ => p.drop 1
+  if divisors.any Num.isExactZero then .error .divZero else subDiv Num.div (.int 1) args
+
 /-- `typed_comparision!` on numbers: every argument is type-checked, also after the pair that decides the result -/
 def cmpNum (op : Num → Num → Bool) : List Value → Except Err Bool
   | [] => .ok true
@@ -296,7 +310,7 @@ def applyPure (σ : Store) (b : Builtin) (args : List Value) : Res Value :=
   | .add => lift σ (foldNum Num.add (.int 0) args) .num
   | .mul => lift σ (foldNum Num.mul (.int 1) args) .num
   | .sub => lift σ (subDiv Num.sub (.int 0) args) .num
-  | .div => lift σ (subDiv Num.div (.int 1) args) .num
+  | .div => lift σ (divArgs args) .num
   | .numEq => lift σ (cmpNum Num.eq args) .bool
   | .lt => lift σ (cmpNum Num.lt args) .bool
   | .le => lift σ (cmpNum Num.le args) .bool
